@@ -174,3 +174,10 @@ Print Assumptions C17_refused_time_string_panics.
 Theorem C17_text_listing_loads : stmt_load_text_total.
 Proof. exact load_text_total. Qed.
 Print Assumptions C17_text_listing_loads.
+
+(** "… and formation limit": the limit the network answers for a service node is the smaller of the type's and the route
+    segment's (the one that is given, if only one is) *)
+From RS Require Import SchedObs Output OutStmts OutFacts.
+Theorem C17_formation_limit_is_the_smaller_one : stmt_max_formation_spec.
+Proof. exact max_formation_spec. Qed.
+Print Assumptions C17_formation_limit_is_the_smaller_one.
